@@ -1,5 +1,20 @@
 import IrVerif.Props.C11
 open IrVerif.LinkedSet
 #print axioms C11_rep_empty
-#print axioms C11_rep_remove
-#print axioms C11_rep_insertOneAfter
+#print axioms C11_rep_step
+#print axioms C11_rep_history
+#print axioms C11_refine_step
+#print axioms C11_refine_next
+#print axioms C11_refine_start
+#print axioms C11_refine_rest
+#print axioms C11_terminates
+#print axioms C11_only_members
+#print axioms C11_getitem_len_contains
+#print axioms C11_tombstone_frozen
+#print axioms C11_tombstone_order
+#print axioms C11_next_rest
+#print axioms C11_untouched_step
+#print axioms C11_untouched_exactly_once_in_order
+#print axioms C11_spec_rest_remove
+#print axioms C11_spec_rest_insert
+#print axioms C11_spec_resume
